@@ -109,10 +109,10 @@ func (cr *clRun) issueAdmin(i int, op Op) {
 		cr.viol("C14", "management-request-hung", "admin op %s %s did not return within %v", a.kind, a.arg, hangLimit)
 		return
 	}
-	cr.curAdmin = nil
 	cr.note(a.kind, okstr(a.err))
+	cr.judgeAdmin(a, op, pre, idleBefore) // updates the model before any further quiescent-point check runs
+	cr.curAdmin = nil
 	cr.pump(time.Millisecond, nil)
-	cr.judgeAdmin(a, op, pre, idleBefore)
 }
 
 func (cr *clRun) idleIO() bool {
